@@ -13,8 +13,29 @@ from l7 import *
 import gens
 
 
+def _model(runner, prop, tier, seed, depth):
+    """Model-check the reference responder (MCStack) and replay its behaviours into the code."""
+    import mc
+    cfg = cfg_self(logger="logfmt", deny=True)
+    frames, res = mc.run_model(runner, cfg, tier, "%s_mcstack_%s" % (prop, tier), depth=depth)
+    if not res["ok"]:
+        raise tv.ToolError("the reference model itself fails (%s); see %s" % (res.get("error"), res["log"]))
+    runner.mc.append({"model": "MCStack (reference responder, %d concrete frames, depth %d): NoViolation, frame conditions, totality"
+                               % (res["frames"], depth),
+                      "states": res["distinct"], "transitions": res["generated"], "behaviours_exported": len(res["behaviours"]),
+                      "exhaustive": True})
+    mc.replay_behaviours(runner, cfg, frames, res["behaviours"], tier, rng_for(seed, "mc" + prop))
+
+
+MODEL_QUICK = {"C07": 3, "C08": 3, "C09": 3}
+MODEL_THOROUGH = {p: 4 for p in ("C02", "C03", "C04", "C05", "C06", "C07", "C08", "C09", "C11", "C12", "C13", "C14", "C15", "C16", "C18", "C19", "C20")}
+
+
 def _run(runner, prop, tier, seed, t0, rule, level="model_checking", jobs=12, extra_cov=None, chunk_events=1500):
     gens.known_witnesses(runner, prop)
+    depth = (MODEL_QUICK if tier == "quick" else MODEL_THOROUGH).get(prop)
+    if depth:
+        _model(runner, prop, tier, seed, depth)
     sessions = [s.records for s in runner.sessions]
     res = tv.validate("%s_%s" % (prop, tier), sessions, focus=prop, jobs=jobs, chunk_events=chunk_events)
     return finish(prop, tier, seed, runner, res, t0, level, rule, extra_cov=extra_cov)
